@@ -31,10 +31,11 @@ def T0 : Nat := 1000000000
 inductive Ev where
   | tickbegin (t : Int)
   | tickend (t : Int)
-  /-- `h = call_out("co<fn>", d, tag)` by object `o`; `fp`: `call_out((: co<fn> :), d, tag)` (function pointer) -/
-  | co (t : Int) (o fn : Nat) (d : Int) (tag : String) (h : Int) (fp : Bool)
-  /-- the call_out `co<fn>(tag)` of object `o` runs -/
-  | fire (t : Int) (o fn : Nat) (tag : String)
+  /-- `h = call_out("co<fn>", d, tag)` by object `o`; `fp`: `call_out((: co<fn> :), d, tag)` (function pointer);
+      `tp` = this_player() at that moment (the command_giver new_call_out saves) -/
+  | co (t : Int) (o fn : Nat) (d : Int) (tag : String) (h : Int) (fp : Bool) (tp : Option Nat)
+  /-- the call_out `co<fn>(tag)` of object `o` runs; `tp` = this_player() inside the callback -/
+  | fire (t : Int) (o fn : Nat) (tag : String) (tp : Option Nat)
   /-- `r = remove_call_out(handle of tag)` -/
   | rmh (t : Int) (o : Nat) (tag : String) (r : Int)
   /-- `r = find_call_out(handle of tag)` -/
@@ -75,6 +76,7 @@ structure Call where
   handle : Nat            -- slot + N * serial
   due : Int               -- GHOST: current_time + max delay 1 at creation
   fp : Bool               -- function-pointer call_out: C has `cop->ob == 0`, `owner` is `function.f->hdr.owner`
+  giver : Option Nat      -- `cop->command_giver` (THIS_PLAYER_IN_CALL_OUT), as this_player() shows it when saved
   deriving Repr, DecidableEq
 
 structure Entry where
@@ -102,13 +104,14 @@ structure World where
   unique : Nat
   dead : List Nat                               -- destructed objects
   hmap : List ((Nat × String) × Nat)            -- per object: tag -> handle (LPC variable `handles`)
+  giver : Option Nat                            -- command_giver (none = 0)
   out : List Ev                                 -- events, newest first
 
 /-- scripts: what the callback of (owner, tag) does -/
 abbrev Scripts := Nat → String → List Op
 
 def World.init : World :=
-  { slots := fun _ => [], cot := 0, now := T0, unique := 0, dead := [], hmap := [], out := [] }
+  { slots := fun _ => [], cot := 0, now := T0, unique := 0, dead := [], hmap := [], giver := none, out := [] }
 
 def setSlot (w : World) (s : Nat) (l : List Entry) : World :=
   { w with slots := fun i => if i = s then l else w.slots i }
@@ -118,6 +121,15 @@ def emit (w : World) (e : Ev) : World := { w with out := e :: w.out }
 def vnow (w : World) : Int := (w.now : Int) - (T0 : Int)
 
 def isDead (w : World) (o : Nat) : Bool := w.dead.contains o
+
+/-- a saved command_giver as the driver uses it: a destructed one counts as 0
+    (`cop->command_giver && !(cop->command_giver->flags & O_DESTRUCTED)`; this_player() does the same test).
+    O_LISTENER is never set anywhere in this driver, so the `else if (ob->flags & O_LISTENER)` branch of
+    call_out() is dead code and not modelled. -/
+def liveGiver (w : World) (g : Option Nat) : Option Nat :=
+  match g with
+  | some x => if isDead w x then none else some x
+  | none => none
 
 /-- ordered insert of new_call_out: walk the list subtracting deltas; insert before the first element whose
     delta is >= the remaining delay and reduce that element's delta -/
@@ -141,7 +153,9 @@ def newCallOut (w : World) (owner fn : Nat) (tag : String) (delay : Int) (fp : B
   let rot : Int := Gen.C10.rotExpr d w.now cot
   let uniq := w.unique + 1
   let h : Nat := (Gen.C10.handleExpr tm w.unique).toNat
-  let c : Call := { serial := uniq, owner := owner, fn := fn, tag := tag, handle := h, due := d + (w.now : Int), fp := fp }
+  let c : Call :=
+    { serial := uniq, owner := owner, fn := fn, tag := tag, handle := h, due := d + (w.now : Int), fp := fp,
+      giver := liveGiver w w.giver }
   let w1 := { w with cot := cot, unique := uniq }
   (setSlot w1 tm (insertDelta (w1.slots tm) rot c), h)
 
@@ -271,11 +285,11 @@ def stepOp (w : World) (self : Nat) (op : Op) : StepRes :=
   | .co fn delay tag fp =>
     if isDead w self then
       let w := { w with hmap := ((self, tag), 0) :: w.hmap }
-      { w := emit w (.co (vnow w) self fn delay tag 0 fp) }
+      { w := emit w (.co (vnow w) self fn delay tag 0 fp (liveGiver w w.giver)) }
     else
       let r := newCallOut w self fn tag delay fp
-      let w := { r.1 with hmap := ((self, tag), r.2) :: r.1.hmap }
-      { w := emit w (.co (vnow w) self fn delay tag (r.2 : Int) fp) }
+      let w' := { r.1 with hmap := ((self, tag), r.2) :: r.1.hmap }
+      { w := emit w' (.co (vnow w) self fn delay tag (r.2 : Int) fp (liveGiver w w.giver)) }
   | .rmh tag =>
     let r := removeByHandle w (lookupHandle w self tag)
     { w := emit r.1 (.rmh (vnow w) self tag r.2) }
@@ -312,7 +326,9 @@ def fireOne (sc : Scripts) (w : World) (cop : Entry) : World :=
     -- string call_out: dropped silently; function pointer: call_function_pointer raises "owner destructed"
     if cop.c.fp then emit w .errFpDead else w
   else
-    let w := emit w (.fire (vnow w) cop.c.owner cop.c.fn cop.c.tag)
+    -- command_giver = the saved one unless it has been destructed
+    let w := { w with giver := liveGiver w cop.c.giver }
+    let w := emit w (.fire (vnow w) cop.c.owner cop.c.fn cop.c.tag w.giver)
     (runOps w cop.c.owner (sc cop.c.owner cop.c.tag)).1
 
 /-- the do/while of call_out(): pop heads while their delta is zero -/
@@ -348,16 +364,26 @@ def sweepLoop (sc : Scripts) : Nat → World → World
 
 /-- call_out(): `while (call_out_time < current_time)` -/
 def sweep (sc : Scripts) (w : World) : World :=
+  let save := w.giver                         -- `save_command_giver = command_giver`
   let w := if w.cot = 0 then { w with cot := w.now } else w
-  sweepLoop sc (w.now - w.cot) w
+  let w := sweepLoop sc (w.now - w.cot) w
+  { w with giver := save }                    -- `command_giver = save_command_giver`
 
 /-- top-level commands of a case -/
 inductive Cmd where
   | adv (dt : Nat)                  -- current_time += dt
   | sweep                           -- call_out()
   | op (self : Nat) (op : Op)       -- apply do_op on object
+  | gop (g self : Nat) (op : Op)    -- the same with command_giver = g (this_player() of the apply)
   | setScript (self : Nat)          -- apply set_script on object (the script table itself is static)
   deriving Repr
+
+/-- apply do_op on `self` -/
+def applyOp (w : World) (self : Nat) (op : Op) : World :=
+  if isDead w self then emit w (.opDestructed self)
+  else
+    let r := runOps w self [op]
+    if r.2 then emit r.1 (.opErr self) else r.1
 
 def stepCmd (sc : Scripts) (w : World) : Cmd → World
   | .adv dt => { w with now := w.now + dt }
@@ -366,11 +392,11 @@ def stepCmd (sc : Scripts) (w : World) : Cmd → World
     let w := sweep sc w
     emit w (.tickend (vnow w))
   | .setScript self => if isDead w self then emit w (.setScriptDestructed self) else w
-  | .op self op =>
-    if isDead w self then emit w (.opDestructed self)
-    else
-      let r := runOps w self [op]
-      if r.2 then emit r.1 (.opErr self) else r.1
+  | .op self op => applyOp w self op
+  | .gop g self op =>
+    -- save_command_giver (g) ... restore_command_giver ()
+    let w1 := applyOp { w with giver := liveGiver w (some g) } self op
+    { w1 with giver := w.giver }
 
 def runCmds (sc : Scripts) (w : World) (cs : List Cmd) : World := cs.foldl (stepCmd sc) w
 
